@@ -12,10 +12,12 @@ from cutplace import errors, rowio
 PROPERTY_ID = "C13"
 RULE = (
     "Exhaustive: every string over {a,b,CR,LF} up to length 7 (quick) / 9 (thorough) x all 39 width lists with 1-3 "
-    "fields of width 1-3 x the 5 line-delimiter settings, read through fixed_rows(io.StringIO(text, newline='')). "
+    "fields of width 1-3 x the 5 line-delimiter settings, read through fixed_rows from a StringIO (newline '' or the "
+    "default) or from an object that offers nothing but read(size). "
     "Hypothesis: longer well-formed files (records over a wider alphabet incl. blanks and non-ASCII, joined by "
     "permitted delimiters, final one optional) unchanged and with one character deleted / inserted / replaced at "
-    "every offset, read from a stream and by path with the declared encoding; long well-formed files whose CR LF / "
+    "every offset, read from a stream, by path, from a file opened from a descriptor, from a pipe and from a bare "
+    "read() object, with the declared encoding (8 encodings); long well-formed files whose CR LF / "
     "CR / LF delimiters start at, before or after multiples of typical I/O block sizes; exhaustively every string up "
     "to length 4 (quick) / 6 (thorough) over {a, X, LF} containing X, for each of 17 characters X that some layer might "
     "treat specially (NUL, VT, FF, Ctrl-Z, FS GS RS US, DEL, NEL, NBSP, U+2028, U+2029, the byte order mark U+FEFF, "
@@ -97,19 +99,59 @@ def split_row(record, widths):
     return out
 
 
+class _OnlyRead(object):
+    """The least a file-like object can be: it hands out the text through read(size) and offers nothing else (no name,
+    no readline, no tell / seek, no iteration)."""
+
+    def __init__(self, text):
+        self._text = text
+        self._position = 0
+
+    def read(self, size=-1):
+        if size is None or size < 0:
+            size = len(self._text) - self._position
+        result = self._text[self._position:self._position + size]
+        self._position += len(result)
+        return result
+
+
+# where the characters come from: a StringIO without / with the default newline setting, a file named by its path,
+# a file opened from a descriptor (its name is a number), a pipe (it cannot seek or tell), a bare read() object
+SOURCES = ("stream", "path", "stream-default", "fd", "pipe", "reader-object")
+
+
+_CHEAP_SOURCES = ("stream", "stream-default", "reader-object")
+
+
 def judge(sub, text, widths, setting, via="stream", encoding="utf-8", tmpdir=None):
     """Run fixed_rows and compare with the oracle. Returns number of rows or None on error."""
     fields = [("f%d" % i, w) for i, w in enumerate(widths)]
     total = sum(widths)
     case = {"text": text, "widths": list(widths), "setting": setting, "via": via, "encoding": encoding}
+    opened = None
     try:
         if via == "stream":
             source = io.StringIO(text, newline="")
+        elif via == "stream-default":
+            source = io.StringIO(text)  # newline="\n": reading translates nothing either
+        elif via == "reader-object":
+            source = _OnlyRead(text)
+        elif via == "pipe":
+            read_end, write_end = os.pipe()
+            os.write(write_end, text.encode(encoding))
+            os.close(write_end)
+            source = opened = os.fdopen(read_end, "r", encoding=encoding, newline="")
         else:
             source = os.path.join(tmpdir, "data.txt")
             with open(source, "wb") as f:
                 f.write(text.encode(encoding))
-        rows = list(rowio.fixed_rows(source, encoding, fields, SETTINGS[setting]))
+            if via == "fd":
+                source = opened = os.fdopen(os.open(source, os.O_RDONLY), "r", encoding=encoding, newline="")
+        try:
+            rows = list(rowio.fixed_rows(source, encoding, fields, SETTINGS[setting]))
+        finally:
+            if opened is not None:
+                opened.close()
         failed = None
     except errors.DataFormatError as error:
         rows = None
@@ -159,7 +201,7 @@ def _exhaustive_shard(args):
             for widths in WIDTH_LISTS:
                 for setting in SETTINGS:
                     before = len(sub.fails)
-                    n_rows = judge(sub, text, widths, setting)
+                    n_rows = judge(sub, text, widths, setting, _CHEAP_SOURCES[(number + len(widths)) % 3])
                     evals += 1
                     if has_break or (n_rows or 0) >= 2:
                         nontrivial += 1
@@ -235,7 +277,9 @@ def file_cases(draw):
         text = text.replace("中", "c").replace("€", "E").replace("\ufeff", "F").replace("\u2028", "L").replace("\x85", "N")
     edit = draw(st.sampled_from(["none", "all-deletes", "all-inserts", "all-replaces"]))
     insert_char = draw(st.sampled_from("a \r\n"))
-    via = draw(st.sampled_from(["stream", "path"]))
+    via = draw(st.sampled_from(SOURCES))
+    if via == "pipe" and len(text.encode(encoding)) > 30000:
+        via = "path"
     return {"text": text, "widths": widths, "setting": setting, "edit": edit, "char": insert_char, "via": via,
             "encoding": encoding}
 
@@ -255,7 +299,7 @@ def check_file_case(sub, case):
         variants += [text[:i] + ch + text[i + 1:] for i in range(len(text))]
     elif edit == "single":  # replay form: explicit variant
         variants = [text]
-    tmpdir = tempfile.mkdtemp(prefix="c13-") if case["via"] == "path" else None
+    tmpdir = tempfile.mkdtemp(prefix="c13-") if case["via"] in ("path", "fd") else None
     try:
         for variant in variants:
             n_rows = judge(sub, variant, widths, setting, case["via"], case["encoding"], tmpdir)
